@@ -225,3 +225,47 @@ package api
 //@   params recv message
 //@   ensures sentMessages == old(sentMessages) + 1 && lastSentParam == old(message.Param)
 //@   modifies sentMessages, lastSentParam, ReplicateMessageParam.TargetMsgPosition
+
+// ---- C13: the catalog reader's hand-off protocol (api.MetaOp as ghost counters) ----------------------------------
+// subsColl/subsPart: subscriptions made; watchColl/watchPart: watch requests made; listedColl/listedPart: listings
+// done; startedWatch: StartWatch calls.  The preconditions state the order the hand-off relies on: watches are
+// requested before the catalog is listed (an object created after the listing is then delivered by the watch),
+// consumers are registered and both listings are done before the held events are released.
+//@ ghost var subsColl int
+//@ ghost var subsPart int
+//@ ghost var watchColl int
+//@ ghost var watchPart int
+//@ ghost var listedColl int
+//@ ghost var listedPart int
+//@ ghost var startedWatch int
+//@ trusted func (MetaOp).SubscribeCollectionEvent
+//@   params recv taskID consumer
+//@   ensures subsColl == old(subsColl) + 1
+//@   modifies subsColl
+//@ trusted func (MetaOp).SubscribePartitionEvent
+//@   params recv taskID consumer
+//@   ensures subsPart == old(subsPart) + 1
+//@   modifies subsPart
+//@ trusted func (MetaOp).WatchCollection
+//@   params recv ctx filter
+//@   ensures watchColl == old(watchColl) + 1
+//@   modifies watchColl
+//@ trusted func (MetaOp).WatchPartition
+//@   params recv ctx filter
+//@   ensures watchPart == old(watchPart) + 1
+//@   modifies watchPart
+//@ trusted func (MetaOp).GetAllCollection
+//@   params recv ctx filter
+//@   requires [the-collection-watch-is-requested-before-the-listing] watchColl >= 1
+//@   ensures listedColl == old(listedColl) + 1
+//@   modifies listedColl, fresh(pb.CollectionInfo.*), fresh([]*pb.CollectionInfo), fresh(schemapb.CollectionSchema.*), fresh([]*commonpb.KeyDataPair), fresh(commonpb.KeyDataPair.*)
+//@ trusted func (MetaOp).GetAllPartition
+//@   params recv ctx filter
+//@   requires [the-partition-watch-is-requested-before-the-listing] watchPart >= 1
+//@   ensures listedPart == old(listedPart) + 1
+//@   modifies listedPart, fresh(pb.PartitionInfo.*), fresh([]*pb.PartitionInfo)
+//@ trusted func (MetaOp).StartWatch
+//@   params recv
+//@   requires [consumers-are-registered-and-the-catalog-is-listed-before-held-events-are-released] subsColl >= 1 && subsPart >= 1 && listedColl >= 1 && listedPart >= 1
+//@   ensures startedWatch == old(startedWatch) + 1
+//@   modifies startedWatch
